@@ -1,6 +1,7 @@
 #!/bin/bash
 # usage: try_seed.sh <seed dir> <property id> [check args]   — applies the seeded patch to /repo, runs the check, undoes the patch
 SEED="$1"; ID="$2"; shift 2
+if [ -n "$(git -C /repo status --porcelain)" ]; then echo "refusing: /repo has uncommitted changes"; exit 3; fi
 git -C /repo apply "$SEED/patch.diff" || { echo "patch does not apply"; exit 3; }
 /verif/bin/check "$ID" -no-evidence "$@"; RC=$?
 git -C /repo checkout -- . 
